@@ -37,7 +37,7 @@ def cases(tier, seed):
     # what the command line tools leave in a --to_dsk target that is already there: whatever kind of file it was before, a target the tool
     # wrote to is a disk image afterwards (a refusal that leaves it alone is fine)
     for tool in ("asm", "futil"):
-        for pre in ("absent", "empty", "junk", "cas", "blankdsk", "dskfiles", "shortdsk", "onebyte"):
+        for pre in ("absent", "empty", "junk", "cas", "blankdsk", "dskfiles", "shortdsk", "onebyte", "longdsk", "linkdsk"):
             for append in (True, False):
                 yield {"k": "cli", "tool": tool, "pre": pre, "append": append, "fill": "default", "files": []}
     # fill histories: k-granule files until the disk is full (the images on the way are checked)
@@ -76,8 +76,13 @@ def check_case(case):
             pre = {"absent": None, "empty": b"", "onebyte": b"\x00", "junk": bytes((i * 37 + 11) & 0xFF for i in range(700)).replace(b"\x55\x3c", b"\x55\x3d"),
                    "cas": tape.write([dict(name="OLD", type=2, dtype=0, load=0x2000, exec=0x2000, data=bytes(range(60)))]),
                    "blankdsk": dskfs.write([]), "shortdsk": dskfs.write([])[:-256]}.get(case["pre"])
-            if case["pre"] == "dskfiles":
-                c16.write_source("out.dsk", "dsk", [0, 1])
+            if case["pre"] in ("dskfiles", "longdsk", "linkdsk"):
+                # longdsk: a 40-track dump (a valid 35-track image followed by five more tracks); linkdsk: the target is a symbolic link to the image
+                c16.write_source("out.dsk" if case["pre"] != "linkdsk" else "real.dsk", "dsk", [0, 1])
+                if case["pre"] == "longdsk":
+                    open("out.dsk", "ab").write(b"\xFF" * (5 * 18 * 256))
+                if case["pre"] == "linkdsk":
+                    os.symlink("real.dsk", "out.dsk")
                 pre = open("out.dsk", "rb").read()
             elif pre is not None:
                 open("out.dsk", "wb").write(pre)
